@@ -150,6 +150,13 @@ impl FileModel {
     /// `M(op, h)`: fresh reader of the file's own format, perfect disk.
     pub fn outcome(&mut self, op: &Op, header: Option<u32>) -> Outcome {
         let op = self.resolve(op);
+        // the eager formats' own readers have no `worksheet_range_ref`; where the call exists for
+        // them (the `Sheets` wrapper) the property defines its result: the owned range, cell by cell
+        let op = match op {
+            Op::RangeRef(a) if !self.format.is_lazy() => Op::Range(a),
+            Op::RangeAtRef(k) if !self.format.is_lazy() => Op::RangeAt(k),
+            o => o,
+        };
         // calls whose result does not depend on the header option share one memo entry
         let h = if header_sensitive(&op) { header } else { None };
         if let Some(o) = self.memo.get(&(op.clone(), h)) {
